@@ -344,9 +344,23 @@ def read_text(path):
 class Injector:
     """plan: {step: (kind, variant)}; kind 'exc' | 'base'."""
 
-    def __init__(self, A, P, plan):
+    def __init__(self, A, P, plan, reader=None, crash=None, two_phase=False):
         self.A, self.bak, self.P = A, A + ".bak", P
         self.plan = dict(plan)
+        # round 3 (crash points / other file types): the on-disk content of the target is recorded when each step
+        # begins; `crash` = ("before", step) | ("mid", "write", j) | ("mid", "backup"|"restore"): the process is
+        # killed there with os._exit (no handler runs, buffers are dropped); `two_phase`: os.rename is carried out
+        # as "link the new name, then unlink the old one" (a rename that is not atomic)
+        self.track = reader is not None
+        self.reader = reader or read_text
+        self.crash = crash
+        self.two_phase = two_phase
+        self.disk_before = {}
+        self.disk_at_write = []
+        self.first_write = None
+        self.nwrites = 0
+        self.closed_disk = None
+        self.closed = False
         self.fired = {}      # step -> text on disk at A right after the failing step (None = absent)
         self.tags = {}       # id(exception) -> (kind, step)
         self.keep = []
@@ -362,6 +376,10 @@ class Injector:
     def due(self, step, variant=None):
         if not self.trace or self.trace[-1] != step:
             self.trace.append(step)
+            if self.track and step not in self.disk_before:
+                self.disk_before[step] = self.reader(self.A)
+                if self.crash == ("before", step):
+                    os._exit(77)
         p = self.plan.get(step)
         if p is None or step in self.fired:
             return None
@@ -371,7 +389,7 @@ class Injector:
 
     def fire(self, step):
         kind = self.plan[step][0]
-        self.fired[step] = read_text(self.A)
+        self.fired[step] = self.reader(self.A)
         e = InjectedFault("injected fault at %s" % step) if kind == "exc" else InjectedInterrupt("injected interrupt at %s" % step)
         self.tag(e, step)
         raise e
@@ -380,8 +398,10 @@ class Injector:
         try:
             return f(*a, **k)
         except BaseException as e:
+            fresh = id(e) not in self.tags          # an exception already attributed to an inner step passes through
             self.tag(e, step)
-            self.nat.setdefault(step, ("exc" if isinstance(e, Exception) else "base", read_text(self.A)))
+            if fresh:
+                self.nat.setdefault(step, ("exc" if isinstance(e, Exception) else "base", self.reader(self.A)))
             raise
 
     # -- patched primitives -----------------------------------------------
@@ -401,7 +421,18 @@ class Injector:
             return _REAL["rename"](src, dst, *a, **k)
         if self.due(step):
             self.fire(step)
+        if self.two_phase:
+            return self.natural(step, self._rename2, step, src, dst)
         return self.natural(step, _REAL["rename"], src, dst, *a, **k)
+
+    def _rename2(self, step, src, dst):
+        """a rename in two phases: the new name appears (replacing what was there), then the old one goes"""
+        tmp = dst + ".lnk~"
+        os.link(src, tmp)
+        _REAL["rename"](tmp, dst)
+        if self.crash == ("mid", step):
+            os._exit(77)
+        _REAL["unlink"](src)
 
     def remove(self, p, *a, **k):
         if self._path(p) != self.bak:
@@ -503,7 +534,19 @@ class _RProxy(_Proxy):
 class _WProxy(_Proxy):
     def write(self, s):
         inj = self._inj
-        if inj.due("write"):
+        due = inj.due("write")
+        if inj.track:
+            j, inj.nwrites = inj.nwrites, inj.nwrites + 1
+            if inj.first_write is None:
+                inj.first_write = bytes(s) if not isinstance(s, str) else s
+            if j < 4:
+                inj.disk_at_write.append(inj.reader(inj.A))
+            if inj.crash == ("mid", "write", j):
+                if j == 0:                      # die half way through the first write
+                    self._real.write(s[:len(s) // 2])
+                    self._real.flush()
+                os._exit(77)
+        if due:
             if inj.plan["write"][1] == "half":
                 self._real.write(s[:len(s) // 2])
                 self._real.flush()
@@ -524,7 +567,10 @@ class _WProxy(_Proxy):
             elif v == "vanish":
                 _REAL["remove"](inj.A)
             inj.fire("close")
-        return inj.natural("close", self._real.close)
+        r = inj.natural("close", self._real.close)
+        if inj.track:
+            inj.closed, inj.closed_disk = True, inj.reader(inj.A)
+        return r
 
 
 # --------------------------------------------------------------------------
@@ -1130,6 +1176,983 @@ def direct_task(args):
 
 
 # --------------------------------------------------------------------------
+# round 3: crash points, every branch of _save_content, file-type dispatch, histories
+# (model: coq/theories/Cli/GenModel.v, FormatModel.v; rendering: Cli/GenShow.v)
+# --------------------------------------------------------------------------
+
+GEN_HEADER = ("From DD Require Import Base.PyStr Cli.FsModel Cli.FsShow Cli.GenModel Cli.FormatModel Cli.GenShow.\n"
+              "Local Open Scope Z_scope.")
+CRASH_EXIT = 77
+
+
+def read_raw(path):
+    try:
+        with _REAL["open"](path, "rb") as f:
+            return f.read()
+    except FileNotFoundError:
+        return None
+    except IsADirectoryError:
+        return b"<dir>"
+
+
+def forked(fn):
+    """run fn() in a forked child; -> (exit code, report).  The child leaves with os._exit: nothing of the
+    parent's state (pool pipes, atexit handlers, scratch removal) runs in it; a crash point inside fn ends it
+    with CRASH_EXIT and no report."""
+    import pickle as _pk
+    r, w = os.pipe()
+    pid = os.fork()
+    if pid == 0:
+        code = 70
+        try:
+            os.close(r)
+            rep = fn()
+            data = _pk.dumps(rep)
+            while data:
+                n = os.write(w, data)
+                data = data[n:]
+            os.close(w)
+            code = 0
+        except BaseException:
+            code = 71
+        finally:
+            os._exit(code)
+    os.close(w)
+    chunks = []
+    while True:
+        c = os.read(r, 1 << 16)
+        if not c:
+            break
+        chunks.append(c)
+    os.close(r)
+    _, status = os.waitpid(pid, 0)
+    code = os.waitstatus_to_exitcode(status)
+    rep = None
+    if code == 0 and chunks:
+        rep = _pk.loads(b"".join(chunks))
+    return code, rep
+
+
+def _have(mod):
+    import importlib
+    try:
+        importlib.import_module(mod)
+        return True
+    except Exception:
+        return False
+
+
+_MODS = None
+
+
+def fmt_mods():
+    """which optional modules import here: decides the branch shapes the model is run with"""
+    global _MODS
+    if _MODS is None:
+        yaml = _have("yaml")
+        _MODS = {"load": {"json": True, "yaml": yaml, "toml": _have("tomllib") or _have("tomli"), "pickle": True, "csv": True},
+                 "save": {"json": True, "yaml": yaml, "toml": _have("tomli_w"), "pickle": True, "csv": True},
+                 "clevercsv": _have("clevercsv")}
+    return _MODS
+
+
+FMT_OF_EXT = {"json": "json", "yaml": "yaml", "yml": "yaml", "toml": "toml", "pickle": "pickle", "csv": "csv", "tsv": "csv"}
+COQ_FMT = {"json": "FJson", "yaml": "FYaml", "toml": "FToml", "pickle": "FPickle", "csv": "FCsv"}
+
+
+def coq_shape(ftype, pos):
+    fm = FMT_OF_EXT.get(ftype)
+    if fm is None or not fmt_mods()["save"][fm]:
+        return "ShNone"
+    return "(ShBuf %s)" % pos if fm == "json" else "ShStream"
+
+
+def coq_fmt_list(which):
+    return "[" + "; ".join(COQ_FMT[k] for k, v in sorted(fmt_mods()[which].items()) if v) + "]"
+
+
+class Coder:
+    """bytes / text -> integer content of the model; unknown contents get fresh negative codes (stable within
+    one case), the empty file is []"""
+
+    def __init__(self, table):
+        self.table = dict(table)
+        self.next = -100
+
+    def __call__(self, data):
+        if data is None:
+            return None
+        if len(data) == 0:
+            return []
+        if data not in self.table:
+            self.table[data] = [self.next]
+            self.next -= 1
+        return self.table[data]
+
+
+def coq_optopt(present, c):
+    return "(Some %s)" % coq_opt_content(c) if present else "None"
+
+
+def g_content(ftype, kind):
+    """the object handed to save_content_to_path: kind 'ok' (serialisable), 'bad' (rejected before a byte is
+    written), 'late' (rejected after part of it went to the file)"""
+    fm = FMT_OF_EXT.get(ftype)
+    if fm == "json":
+        return {"n": [1, 2, {"x": None}]} if kind == "ok" else {"n": object()}
+    if fm == "csv":
+        if kind == "ok":
+            return [{"a": 1, "b": "x"}, {"a": 2, "b": "y,z"}, {"a": 3, "b": "line\nbreak"}]
+        if kind == "bad":
+            return []                                            # content[0]: IndexError, after open
+        return [{"a": i, "b": "x" * 40} for i in range(400)] + [{"a": 1, "zz": 2}]     # ValueError after ~16 kB
+    if fm == "pickle":
+        if kind == "ok":
+            return {"n": [1, 2, (3, 4)], "s": {1, 2}, "t": None, "b": b"\x00\xff"}
+        if kind == "bad":
+            return {"f": (lambda: 0)}
+        return {"big": ["x" * 70000, "y" * 70000], "f": (lambda: 0)}      # frames are flushed before the failure
+    return {"x": 1}
+
+
+class _Extra:
+    """instrument the serialisers of the streaming branches: pickle_dump and csv.DictWriter"""
+
+    def __init__(self, inj):
+        self.inj = inj
+
+    def __enter__(self):
+        import csv
+        import deepdiff.serialization as ser
+        inj = self.inj
+        self.ser, self.csv = ser, csv
+        self.pd, self.dw = ser.pickle_dump, csv.DictWriter
+        real_pd, real_dw = self.pd, self.dw
+
+        def pickle_dump(*a, **k):
+            if inj.due("dumps"):
+                inj.fire("dumps")
+            return inj.natural("dumps", real_pd, *a, **k)
+
+        class DictWriter:
+            def __init__(self_, *a, **k):
+                if inj.due("dumps"):
+                    inj.fire("dumps")
+                self_._w = inj.natural("dumps", real_dw, *a, **k)
+
+            def writeheader(self_):
+                return inj.natural("dumps", self_._w.writeheader)
+
+            def writerows(self_, rows):
+                return inj.natural("dumps", self_._w.writerows, rows)
+
+            def writerow(self_, row):
+                return inj.natural("dumps", self_._w.writerow, row)
+
+        ser.pickle_dump = pickle_dump
+        csv.DictWriter = DictWriter
+        return self
+
+    def __exit__(self, *exc):
+        self.ser.pickle_dump = self.pd
+        self.csv.DictWriter = self.dw
+        return False
+
+
+def _report(inj, outcome):
+    return {"outcome": outcome, "fired": dict(inj.fired), "nat": dict(inj.nat), "trace": list(inj.trace),
+            "disk_before": dict(inj.disk_before), "disk_at_write": list(inj.disk_at_write),
+            "first_write": inj.first_write, "closed": inj.closed, "closed_disk": inj.closed_disk}
+
+
+def g_run(ftype, a_present, prebak, kind, keep, plan, crash, two_phase, work):
+    """save_content_to_path(content, A, file_type, keep_backup) in a forked child, optionally killed at a crash
+    point; -> (exit code, report of the child or None, directory state afterwards)"""
+    d = tempfile.mkdtemp(dir=work)
+    A, B = os.path.join(d, "a." + ftype), os.path.join(d, "b.bin")
+    if a_present:
+        with open(A, "wb") as f:
+            f.write(b"OLD-A")
+    if prebak:
+        with open(A + ".bak", "wb") as f:
+            f.write(b"BAK0")
+    with open(B, "wb") as f:
+        f.write(b"OTHER")
+
+    def child():
+        from deepdiff.serialization import save_content_to_path
+        content = g_content(ftype, kind)
+        inj = Injector(A, os.path.join(d, "nope"), plan, reader=read_raw, crash=crash, two_phase=two_phase)
+        outcome = ["done"]
+        with inj, _Extra(inj):
+            try:
+                save_content_to_path(content, A, file_type=ftype, keep_backup=keep)
+            except BaseException as e:
+                k, step = inj.tags.get(id(e), ("exc" if isinstance(e, Exception) else "base", "dumps"))
+                outcome = ["raised", k, step]
+        return _report(inj, outcome)
+
+    code, rep = forked(child)
+    obs = {"A": read_raw(A), "bak": read_raw(A + ".bak"), "B": read_raw(B),
+           "others": sorted(x for x in os.listdir(d) if x not in ("a." + ftype, "a." + ftype + ".bak", "b.bin"))}
+    shutil.rmtree(d, ignore_errors=True)
+    return code, rep, obs
+
+
+def g_env(rep, coder, two_phase, mid=None, late=False, stream=False):
+    """the environment of the model, read off the reference run: what was on disk when close() began (= what the
+    serialiser / write had flushed), what a rejecting streaming serialiser had flushed when it gave up, what
+    close() left, and the predicted on-disk content of a crash in mid-write"""
+    at_close = "close" in rep["disk_before"]
+    pend = coder(rep["disk_before"].get("close")) if at_close else None
+    nat_ = coder(rep["nat"]["dumps"][1]) if (stream and "dumps" in rep["nat"]) else pend
+    return "(ev_of %s %s %s %s %s %s)" % (
+        core.coq_bool(not two_phase), coq_opt_content(nat_), coq_opt_content(mid), coq_opt_content(pend),
+        coq_optopt(rep["closed"], coder(rep["closed_disk"]) if rep["closed"] else None), core.coq_bool(late))
+
+
+def g_sched(plan, rep, coder, stream=False):
+    """the schedule given to the model: the faults that fired (with the debris seen on disk) and the failures the
+    library produced by itself; a planned fault whose step the run never reached is not consulted by either side.
+    In the streaming branches a serialiser that rejects the document is not a fault of the schedule: the model
+    is told that the document is not serialisable (new = None) and what was on disk (e_nat, e_late)"""
+    nat = {k: v for k, v in rep["nat"].items() if not (stream and k == "dumps")}
+    return coq_sched({s: kv for s, kv in plan.items() if s in rep["fired"]}, rep["fired"], coder, nat)
+
+
+def g_half(rep):
+    fw = rep["first_write"]
+    if fw is None:
+        return None
+    h = fw[:len(fw) // 2]
+    return h.encode("utf-8") if isinstance(h, str) else bytes(h)
+
+
+def crash_oracle(a_present, prebak, new_bytes, completed, o):
+    """the theorems' conclusions on the real directory (no reference to the model)"""
+    if not a_present:
+        return None
+    if b"OLD-A" not in (o["A"], o["bak"]) and not (o["A"] == new_bytes and new_bytes is not None):
+        return "a crash left neither the original content (in A or A.bak) nor the complete new content in A"
+    if o["A"] not in (b"OLD-A", new_bytes) and o["bak"] != b"OLD-A":
+        return "a crash left a missing / truncated target without a backup holding the original content"
+    if not prebak:
+        rec = o["bak"] if o["bak"] is not None else o["A"]
+        if rec not in (b"OLD-A", new_bytes):
+            return "recovery (put A.bak back) after a crash yields neither the old nor the new content"
+    if o["B"] != b"OTHER" or o["others"]:
+        return "an unrelated file was touched or a temporary file was left behind"
+    return None
+
+
+SAVE_POINTS = [p for p in POINTS if p[0] not in PRE_STEPS]
+
+
+def crash_task(args):
+    """one (file type, keep, kind of content): reference runs under fault plans (final state vs show_save_g) and a
+    forked child killed at every crash point of each plan (directory vs show_crash)"""
+    ftype, keep, kind, seed, thorough, scratch = args
+    sys.path.insert(0, core.REPO)
+    _quiet()
+    import csv, deepdiff.serialization, deepdiff.delta  # noqa: F401,E401  (imported before forking)
+    rng = random.Random(seed)
+    work = tempfile.mkdtemp(prefix="cr_", dir=scratch)
+    res = {"cases": [], "fails": [], "counts": {}, "seen": [], "samples": [], "breaks": []}
+
+    def count(k, n=1):
+        res["counts"][k] = res["counts"].get(k, 0) + n
+
+    code0, rep0, obs0 = g_run(ftype, True, False, "ok", False, {}, None, False, work)
+    if rep0 is None:
+        res["breaks"].append({"name": "crash_task", "ftype": ftype, "error": "reference child died with %r" % code0})
+        return res
+    pos = dumps_placement(rep0["trace"]) or "DInside"
+    new_bytes = obs0["A"] if rep0["outcome"] == ["done"] else None
+    sh = coq_shape(ftype, pos)
+    count("shape:%s:%s" % (ftype, sh))
+    new_coq = coq_opt_content([2, 2] if (kind == "ok" and sh != "ShNone") else None)
+
+    plans = [{}]
+    for (s, v) in SAVE_POINTS:
+        plans.append({s: ("exc", v)})
+    base_pts = SAVE_POINTS if thorough else rng.sample(SAVE_POINTS, 4)
+    for (s, v) in base_pts:
+        plans.append({s: ("base", v)})
+    pairs = [(p, q) for i, p in enumerate(SAVE_POINTS) for q in SAVE_POINTS[i + 1:] if p[0] != q[0]]
+    for (p, q) in (pairs if thorough else rng.sample(pairs, 6)):
+        plans.append({p[0]: (rng.choice(["exc", "exc", "base"]), p[1]), q[0]: (rng.choice(["exc", "base"]), q[1])})
+
+    for plan in plans:
+        for prebak in ((False, True) if (len(plan) == 0 or (len(plan) == 1 and (thorough or rng.random() < 0.3))) else (False,)):
+            code, rep, obs = g_run(ftype, True, prebak, kind, keep, plan, None, False, work)
+            if rep is None:
+                res["breaks"].append({"name": "crash_task", "ftype": ftype, "plan": repr(plan), "error": "child died with %r" % code})
+                continue
+            table = {b"OLD-A": [1], b"BAK0": [-9], b"OTHER": [5], b"GARB": [-3]}
+            if new_bytes:
+                table[new_bytes] = [2, 2]
+            coder = Coder(table)
+            a0, b0 = coq_opt_content([1]), coq_opt_content([-9] if prebak else None)
+            stream, late = sh == "ShStream", kind == "late"
+            sched = g_sched(plan, rep, coder, stream)
+            tag = {"stream": "save_g", "ftype": ftype, "kind": kind, "keep": keep, "prebak": prebak,
+                   "faults": {s: list(kv) for s, kv in plan.items()}}
+            # ---- final state of the completed run -------------------------------------------------
+            expr = "show_save_g %s %s %s %s %s %s %s" % (sh, g_env(rep, coder, False, None, late, stream), core.coq_bool(keep), a0, b0, new_coq, sched)
+            exp = [sx_file(coder(obs["A"])), sx_file(coder(obs["bak"])), sx_file(coder(obs["B"])), rep["outcome"]]
+            res["cases"].append((expr, exp, tag))
+            res["seen"].append((("save_g", ftype, kind, keep, prebak, tuple(sorted(plan.items()))), True))
+            count("save_g:outcome:" + ":".join(str(x) for x in rep["outcome"][:2]))
+            what = crash_oracle(True, prebak, new_bytes, True, obs) if rep["outcome"][0] == "raised" else None
+            if rep["outcome"] == ["done"] and (obs["A"] != new_bytes or (obs["bak"] == b"OLD-A") != keep):
+                what = "save_content_to_path returned normally without the new content in A / the backup kept iff keep_backup"
+            if what:
+                res["fails"].append((dict(tag, observed=repr(obs)), what))
+            # ---- the crash points of this run -----------------------------------------------------
+            # steps the reference run attempted, and (as "never reached" checks) the renames / open / close / remove it
+            # did not; a failing streaming serialiser may or may not have written before it failed, and the streaming
+            # branches have no serialisation step of their own: those two only where the reference run has them
+            points = [("before", s) for s in ["backup", "open", "write", "close", "restore", "remove"]
+                      if s in rep["trace"] or s != "write"]
+            if FMT_OF_EXT.get(ftype) == "json" or "dumps" in rep["fired"]:
+                points.append(("before", "dumps"))
+            if "write" not in plan and rep["first_write"] is not None:
+                points.append(("mid", "write", 0))
+                for j in range(1, len(rep["disk_at_write"])):
+                    points.append(("mid", "write", j))
+            points += [("mid", "backup"), ("mid", "restore")]
+            if not thorough and len(plan) == 2:
+                points = rng.sample(points, 3)
+            for cp in points:
+                two_phase = cp[0] == "mid" and cp[1] in ("backup", "restore")
+                mid = None
+                if cp[0] == "mid" and cp[1] == "write":
+                    mid = coder(g_half(rep)) if cp[2] == 0 else coder(rep["disk_at_write"][cp[2]])
+                ccode, crep, cobs = g_run(ftype, True, prebak, kind, keep, plan, cp, two_phase, work)
+                reached = ccode == CRASH_EXIT
+                if not reached and crep is None:
+                    res["breaks"].append({"name": "crash_task", "ftype": ftype, "plan": repr(plan), "crash": repr(cp),
+                                          "error": "child died with %r" % ccode})
+                    continue
+                expr = "show_crash %s %s %s %s %s %s %s %s %s" % (
+                    sh, g_env(rep, coder, two_phase, mid, late, stream), core.coq_bool(keep), a0, b0, new_coq, sched,
+                    COQ_STEP[cp[1]], core.coq_bool(cp[0] == "mid"))
+                exp = [sx_file(coder(cobs["A"])), sx_file(coder(cobs["bak"])), sx_file(coder(cobs["B"]))] if reached else ["not-reached"]
+                ctag = dict(tag, stream="crash", crash=list(cp))
+                res["cases"].append((expr, exp, ctag))
+                res["seen"].append((("crash", ftype, kind, keep, prebak, tuple(sorted(plan.items())), cp), True))
+                count("crash:%s" % ("reached" if reached else "not_reached"))
+                if reached:
+                    count("crash_at:%s" % "/".join(str(x) for x in cp[:2]))
+                    if cobs["A"] not in (b"OLD-A", new_bytes):
+                        count("crash:target_missing_or_truncated")
+                    what = crash_oracle(True, prebak, new_bytes, False, cobs)
+                    if what:
+                        res["fails"].append((dict(ctag, observed=repr(cobs)), what))
+    if len(res["samples"]) < 1:
+        res["samples"].append({"crash_task": ftype, "kind": kind, "keep": keep, "shape": sh, "plans": len(plans)})
+    shutil.rmtree(work, ignore_errors=True)
+    return res
+
+
+# ---- file-type dispatch -------------------------------------------------------------------------
+
+DISPATCH_NAMES = ["a.json", "a.yaml", "a.yml", "a.toml", "a.pickle", "a.csv", "a.tsv", "a.txt", "a.JSON", "a.Json", "a.jsonl",
+                  "a.json.bak", "a.tar.yml", "a.csv.json", "json", "a", "a.", ".json", "a..json", "a.pkl", "a.yaml ", "a.json~",
+                  "v1.json/data", "v1.json/data.csv", "x.y/z", "a.b.c.d.toml", "a.tsv.pickle", "noext/", "a.ya.ml", "a.picklee",
+                  "é.json", "a.jsön"]
+
+
+def dispatch_probe(name, work):
+    """which branch of load_path_content / _save_content the real code takes for this path (no file is needed for
+    the save side: a sentinel is raised from open; the load side reads a small toml-looking file)"""
+    import deepdiff.serialization as ser
+    ext = name.split('.')[-1]
+
+    class _Stop(Exception):
+        pass
+
+    seen = {}
+
+    def fake_open(file, mode="r", *a, **k):
+        seen["mode"] = mode
+        seen["newline"] = k.get("newline", None)
+        raise _Stop()
+
+    builtins.open = fake_open
+    try:
+        try:
+            ser._save_content(content=[{"x": 1}], path=name, file_type=ext)
+            branch = "?"
+        except _Stop:
+            branch = {("w", None): "json", ("wb", None): "pickle", ("w", ""): "csv"}.get((seen["mode"], seen["newline"]), "?open:%r" % (seen,))
+        except ImportError as e:
+            branch = "yaml" if "yaml" in str(e).lower() else ("toml" if "tomli" in str(e).lower() else "?import")
+        except ser.UnsupportedFormatErr:
+            branch = "unsupported"
+        except Exception as e:
+            branch = "?%s" % type(e).__name__
+    finally:
+        builtins.open = _REAL["open"]
+    # the load side, on a real file
+    d = tempfile.mkdtemp(dir=work)
+    p = os.path.join(d, "f." + ext) if "/" not in ext else None
+    lbranch = None
+    if p is not None:
+        try:
+            with open(p, "wb") as f:
+                f.write(b"x = 1\n")
+            try:
+                v = ser.load_path_content(p, file_type=ext)
+                lbranch = "toml" if v == {"x": 1} else ("csv" if v == [] else "?value:%r" % (v,))
+            except ImportError as e:
+                lbranch = "yaml" if "yaml" in str(e).lower() else ("toml" if "tomli" in str(e).lower() else "?import")
+            except ser.UnsupportedFormatErr:
+                lbranch = "unsupported"
+            except Exception as e:
+                n = type(e).__name__
+                lbranch = {"JSONDecodeError": "json", "UnpicklingError": "pickle"}.get(n, "?%s" % n)
+        except OSError:
+            lbranch = None
+    shutil.rmtree(d, ignore_errors=True)
+    return ext, branch, lbranch
+
+
+def dispatch_cases(ctx):
+    cases = []
+    mods = fmt_mods()
+    for name in DISPATCH_NAMES:
+        ext, branch, lbranch = dispatch_probe(name, ctx.scratch)
+        ctx.evaluations += 1
+        # with the optional modules installed the save side of yaml/toml opens the file like json/pickle does:
+        # the probe then cannot tell them apart - only claim what it can see
+        if branch in ("json", "pickle") and FMT_OF_EXT.get(ext) in ("yaml", "toml") and mods["save"][FMT_OF_EXT[ext]]:
+            branch = FMT_OF_EXT[ext]
+        cases.append(("show_fmt %s" % core.coq_pystr(name), [ext, branch], {"stream": "dispatch", "path": name, "side": "save"}))
+        if lbranch is not None and not lbranch.startswith("?"):
+            if lbranch != branch and not (lbranch == "csv" and branch == "csv"):
+                ctx.break_("correspondence", {"name": "dispatch", "path": name, "save_branch": branch, "load_branch": lbranch,
+                                              "meaning": "load_path_content and _save_content dispatch differently on this extension"})
+        ctx.count("dispatch:" + branch)
+    return cases
+
+
+# ---- `deep patch` on targets of every type (toy documents), with faults --------------------------
+
+def fmt_doc_bytes(ftype, which):
+    """two documents per file type, as file contents"""
+    fm = FMT_OF_EXT.get(ftype)
+    if fm == "csv":
+        return (b"a,b\n1,x\n2,y\n", b"a,b\n1,x\n3,z\n4,w\n")[which]
+    if fm == "pickle":
+        from deepdiff.serialization import pickle_dump
+        return pickle_dump(({"a": (1, 2), "s": {1, 2}}, {"a": (1, 3), "s": {2, 3}, "n": None})[which])
+    if fm == "toml":
+        return (b"x = 1\n", b"x = 2\ny = [1, 2]\n")[which]
+    if fm == "yaml":
+        return (b"x: 1\n", b"x: 2\n")[which]
+    return (b'{"x": 1}', b'{"x": 2, "y": [1, 2]}')[which]
+
+
+def cli_fmt_task(args):
+    """the real `deep patch` on a.<ftype> under fault plans, compared with patch_cmd_g (show_patch_g)"""
+    ftype, seed, thorough, scratch = args
+    sys.path.insert(0, core.REPO)
+    _quiet()
+    from click.testing import CliRunner
+    from deepdiff.commands import diff, patch
+    rng = random.Random(seed)
+    work = tempfile.mkdtemp(prefix="cf_", dir=scratch)
+    res = {"cases": [], "fails": [], "counts": {}, "seen": [], "samples": [], "breaks": []}
+    fm = FMT_OF_EXT.get(ftype)
+    mods = fmt_mods()
+    a_bytes, b_bytes = fmt_doc_bytes(ftype, 0), fmt_doc_bytes(ftype, 1)
+
+    def setup():
+        d = tempfile.mkdtemp(dir=work)
+        A, B, P = os.path.join(d, "a." + ftype), os.path.join(d, "b." + ftype), os.path.join(d, "delta.pickle")
+        for p, data in ((A, a_bytes), (B, b_bytes)):
+            with open(p, "wb") as f:
+                f.write(data)
+        return d, A, B, P
+
+    # the patch file: from a real diff of the two documents when this type loads here, else from the json pair
+    d, A, B, P = setup()
+    r = CliRunner().invoke(diff, [A, B, "--create-patch"])
+    loadable = fm is not None and mods["load"][fm]
+    if (r.exit_code == 0) != loadable:
+        res["breaks"].append({"name": "cli_fmt", "ftype": ftype, "error": "deep diff exit %r, but the model says loadable=%r" % (r.exit_code, loadable)})
+    if r.exit_code == 0:
+        delta_bytes = r.stdout_bytes
+    else:
+        dj = tempfile.mkdtemp(dir=work)
+        for n, data in (("a.json", b'{"x": 1}'), ("b.json", b'{"x": 2}')):
+            with open(os.path.join(dj, n), "wb") as f:
+                f.write(data)
+        delta_bytes = CliRunner().invoke(diff, [os.path.join(dj, "a.json"), os.path.join(dj, "b.json"), "--create-patch"]).stdout_bytes
+    shutil.rmtree(d, ignore_errors=True)
+
+    plans = [{}] + [{s: ("exc", v)} for (s, v) in POINTS] + [{s: ("base", v)} for (s, v) in rng.sample(POINTS, 4)]
+    new_bytes = None
+    for plan in plans:
+        for keep in (False, True):
+            debug = rng.random() < 0.5
+            d, A, B, P = setup()
+            with open(P, "wb") as f:
+                f.write(delta_bytes)
+            inj = Injector(A, P, plan, reader=read_raw)
+            escaped = None
+            with inj, _Extra(inj):
+                try:
+                    r = CliRunner().invoke(patch, [A, P] + (["--backup"] if keep else []) + (["--debug"] if debug else []))
+                except BaseException as e:
+                    r, escaped = None, e
+            if r is None:
+                cli = ["exc", inj.tags.get(id(escaped), (None, "dumps"))[1]]
+            else:
+                e = r.exception
+                cli = ["exit", r.exit_code] if (e is None or isinstance(e, SystemExit)) else ["exc", inj.tags.get(id(e), (None, "dumps"))[1]]
+            obs = {"A": read_raw(A), "bak": read_raw(A + ".bak"), "B": read_raw(B), "P": read_raw(P),
+                   "others": sorted(x for x in os.listdir(d) if x not in ("a." + ftype, "a." + ftype + ".bak", "b." + ftype, "delta.pickle"))}
+            rep = _report(inj, None)
+            if not plan and new_bytes is None and cli == ["exit", 0]:
+                new_bytes = obs["A"]
+            table = {a_bytes: [1], b"GARB": [-3]}
+            if new_bytes:
+                table[new_bytes] = [2, 2]
+            coder = Coder(table)
+            expr = "show_patch_g %s %s %s %s %s %s %s None 1 2 %s" % (
+                core.coq_pystr(A), coq_fmt_list("load"), coq_fmt_list("save"), g_env(rep, coder, False),
+                core.coq_bool(keep), core.coq_bool(debug), coq_opt_content([1]), g_sched(plan, rep, coder))
+            exp = [sx_file(coder(obs["A"])), sx_file(coder(obs["bak"])), [cli[0], cli[1]]]
+            tag = {"stream": "cli_fmt", "ftype": ftype, "keep": keep, "debug": debug, "faults": {s: list(kv) for s, kv in plan.items()}}
+            res["cases"].append((expr, exp, tag))
+            res["seen"].append((("cli_fmt", ftype, keep, debug, tuple(sorted(plan.items()))), True))
+            res["counts"]["cli_fmt:%s:%s" % (ftype, ":".join(str(x) for x in cli))] = res["counts"].get("cli_fmt:%s:%s" % (ftype, ":".join(str(x) for x in cli)), 0) + 1
+            # direct oracle: nothing is ever lost; B / the patch file / the directory are untouched; one Exception => restored
+            what = None
+            if cli != ["exit", 0] and a_bytes not in (obs["A"], obs["bak"]):
+                what = "`deep patch a.%s` failed and the original content survives neither in A nor in A.bak" % ftype
+            elif obs["B"] != b_bytes or obs["P"] != delta_bytes or obs["others"]:
+                what = "`deep patch a.%s` touched another file" % ftype
+            elif len(plan) == 1 and len(inj.fired) == 1 and list(plan.values())[0][0] == "exc" and list(plan)[0] not in ("restore", "remove") \
+                    and (obs["A"] != a_bytes or obs["bak"] is not None or cli == ["exit", 0]):
+                what = "a single failure at '%s' of `deep patch a.%s` was not rolled back" % (list(plan)[0], ftype)
+            if what:
+                res["fails"].append((dict(tag, observed=repr(obs)), what))
+            shutil.rmtree(d, ignore_errors=True)
+    shutil.rmtree(work, ignore_errors=True)
+    return res
+
+
+# ---- round trips through the real codecs: the hypothesis of C20_patch_reproduces_iff_codec_roundtrips ----
+
+def _doc_same(x, y):
+    try:
+        if x == y:
+            return True
+    except Exception:
+        pass
+    return repr(x) == repr(y)                 # nan
+
+
+def gen_csv_rows(rng):
+    keys = rng.sample(["a", "b", "c", "name", "x y", "k,1", "q\"", "é"], rng.randint(1, 4))
+    vals = [0, 1, -7, 2 ** 40, 1.5, -0.25, 1e100, float("inf"), 1j, 2 + 3j, "x", "abc", "a,b", "line\nbreak", 'say "hi"', " padded ",
+            "", "True", "None", "1e", "0x10", "日本", "12abc"]
+    return [{k: rng.choice(vals) for k in keys} for _ in range(rng.randint(1, 5))]
+
+
+def csv_text(rows):
+    import csv
+    import io as _io
+    buf = _io.StringIO(newline="")
+    w = csv.DictWriter(buf, fieldnames=list(rows[0].keys()))
+    w.writeheader()
+    w.writerows(rows)
+    return buf.getvalue().encode("utf-8")
+
+
+def gen_pickle_doc(rng, depth=3):
+    r = rng.random()
+    if depth <= 0 or r < 0.3:
+        return rng.choice([0, 1, -5, 2 ** 70, 1.5, True, None, "s", "é", b"\x00\x01", (1, 2), (), frozenset([1, 2]), {1, 2}, 1j])
+    if r < 0.55:
+        return {rng.choice(["a", "b", 1, (1, 2), None]): gen_pickle_doc(rng, depth - 1) for _ in range(rng.randint(0, 3))}
+    if r < 0.8:
+        return [gen_pickle_doc(rng, depth - 1) for _ in range(rng.randint(0, 4))]
+    return tuple(gen_pickle_doc(rng, depth - 1) for _ in range(rng.randint(0, 3)))
+
+
+# real codecs outside the round-trip hypothesis (and serialisers that reject documents their own loader
+# produced): (target type, A bytes, other type, B bytes, expected symptom)
+FORMAT_WITNESSES = [
+    ("csv-str-digits", "csv", b"a\n1\n", "json", b'[{"a": "1"}]', "differs"),            # "1" comes back as the int 1
+    ("csv-none", "csv", b"a\n1\n", "json", b'[{"a": null}]', "differs"),                   # None is written as "" and stays ""
+    ("csv-nested", "csv", b"a\n1\n", "json", b'[{"a": [1, 2]}]', "differs"),               # a list is written as its repr
+    ("csv-bool", "csv", b"a\n1\n", "json", b'[{"a": true}]', "differs"),                   # True -> "True"
+    ("csv-empty", "csv", b"a,b\n1,x\n", "csv", b"a,b\n", "save_fails_restored"),           # content[0] on []: IndexError
+    ("csv-ragged", "csv", b"a\n1\n", "json", b'[{"a": 1}, {"b": 2}]', "save_fails_restored"),   # fieldnames from the first row only
+    ("csv-not-rows", "csv", b"a\n1\n", "json", b'{"a": 1}', "save_fails_restored"),        # a dict is not a list of rows
+    ("json-complex", "json", b'[{"a": 1}]', "csv", b"a\n1j\n", "save_fails_restored"),     # csv cells that look like complex numbers
+    ("csv-short-row", "csv", b"a,b\n1\n", "csv", b"a,b\n1,2\n", "load_fails"),             # restval None has no .strip()
+    ("tsv-is-comma", "tsv", b"a\tb\n1\tx\n", "tsv", b"a\tb\n2\tx\n", "reproduces"),       # (a .tsv is read with commas: one column "a\tb")
+]
+
+
+def fmt_witness(ctx, name, ta, a_bytes, tb, b_bytes, expect):
+    from click.testing import CliRunner
+    from deepdiff.commands import diff, patch
+    from deepdiff.serialization import load_path_content
+    d = tempfile.mkdtemp(dir=ctx.scratch)
+    A, B, P = os.path.join(d, "a." + ta), os.path.join(d, "b." + tb), os.path.join(d, "delta.pickle")
+    for p, data in ((A, a_bytes), (B, b_bytes)):
+        with open(p, "wb") as f:
+            f.write(data)
+    r = CliRunner().invoke(diff, [A, B, "--create-patch"])
+    got = None
+    if r.exit_code != 0:
+        got = "load_fails"
+    else:
+        with open(P, "wb") as f:
+            f.write(r.stdout_bytes)
+        r2 = CliRunner().invoke(patch, [A, P])
+        if r2.exit_code != 0:
+            got = "save_fails_restored" if (read_raw(A) == a_bytes and read_raw(A + ".bak") is None) else "save_fails_NOT_restored"
+        else:
+            try:
+                got = "reproduces" if _doc_same(load_path_content(A), load_path_content(B)) else "differs"
+            except Exception as e:
+                got = "reload_fails:%s" % type(e).__name__
+    shutil.rmtree(d, ignore_errors=True)
+    ctx.evaluations += 1
+    ctx.count("format_witness:%s:%s" % (name, got))
+    if got != expect:
+        ctx.break_("correspondence", {"name": "FORMAT_WITNESSES", "witness": name, "expected": expect, "observed": got,
+                                      "meaning": "the implementation no longer behaves as documented for this codec witness"})
+
+
+def roundtrip_fmt_task(args):
+    """generated csv / pickle documents through the real CLI; the exact statement of C20_patch_reproduces_any_format:
+    A afterwards loads as what A's loader makes of A's serialiser's output for B's document (computed independently
+    through _save_content / load_path_content); equal to B's document whenever that codec round trip is the identity"""
+    ftype, n, seed, scratch = args
+    sys.path.insert(0, core.REPO)
+    _quiet()
+    from click.testing import CliRunner
+    from deepdiff.commands import diff, patch
+    from deepdiff.serialization import load_path_content, _save_content, pickle_dump
+    rng = random.Random(seed)
+    work = tempfile.mkdtemp(prefix="rt_", dir=scratch)
+    res = {"cases": [], "fails": [], "counts": {}, "seen": [], "samples": [], "breaks": []}
+
+    def count(k):
+        res["counts"][k] = res["counts"].get(k, 0) + 1
+
+    for i in range(n):
+        btype = ftype
+        if ftype == "csv":
+            a_doc, b_doc = gen_csv_rows(rng), gen_csv_rows(rng)
+            if rng.random() < 0.5:                          # related rows
+                b_doc = copy.deepcopy(a_doc)
+                for _ in range(rng.randint(1, 3)):
+                    row = rng.choice(b_doc)
+                    row[rng.choice(list(row))] = rng.choice([5, "changed", 2.5, "7"])
+                if rng.random() < 0.4:
+                    b_doc.append(dict(b_doc[0]))
+            a_bytes, b_bytes = csv_text(a_doc), csv_text(b_doc)
+            if rng.random() < 0.3:
+                # the other file is JSON: rows the csv codec does not round-trip (digits in strings, null, booleans, nesting)
+                btype = "json"
+                keys = list(a_doc[0])
+                b_doc = [{k: rng.choice(["1", "2.5", None, True, [1, 2], "x", 3, {"n": 1}, " 7 "]) for k in keys} for _ in range(rng.randint(1, 3))]
+                b_bytes = json.dumps(b_doc).encode("ascii")
+        else:
+            a_doc, b_doc = gen_pickle_doc(rng), gen_pickle_doc(rng)
+            try:
+                a_bytes, b_bytes = pickle_dump(a_doc), pickle_dump(b_doc)
+            except Exception:
+                continue
+        d = tempfile.mkdtemp(dir=work)
+        A, B, P, T = (os.path.join(d, x) for x in ("a." + ftype, "b." + btype, "delta.pickle", "t." + ftype))
+        for p, data in ((A, a_bytes), (B, b_bytes)):
+            with open(p, "wb") as f:
+                f.write(data)
+        tag = {"stream": "roundtrip_fmt", "ftype": ftype, "a": repr(a_bytes)[:300], "b": repr(b_bytes)[:300]}
+        try:
+            a_loaded, b_loaded = load_path_content(A), load_path_content(B)
+        except Exception:
+            count("roundtrip_fmt:%s:input_does_not_load" % ftype)
+            shutil.rmtree(d, ignore_errors=True)
+            continue
+        # the codec round trip of B's document in A's format, computed without the CLI
+        try:
+            _save_content(b_loaded, T, ftype)
+            expected, dump_ok = load_path_content(T), True
+        except Exception:
+            expected, dump_ok = None, False
+        hyp = dump_ok and _doc_same(expected, b_loaded)
+        count("roundtrip_fmt:%s:codec_roundtrips=%s" % (ftype, hyp))
+        r = CliRunner().invoke(diff, [A, B, "--create-patch"])
+        res["seen"].append((("rtfmt", ftype, a_bytes, b_bytes), a_bytes != b_bytes))
+        if r.exit_code != 0:
+            res["fails"].append((dict(tag, clause="diff"), "`deep diff` failed on two loadable %s files: %s" % (ftype, r.output[-200:])))
+            shutil.rmtree(d, ignore_errors=True)
+            continue
+        with open(P, "wb") as f:
+            f.write(r.stdout_bytes)
+        r2 = CliRunner().invoke(patch, [A, P, "--backup"])
+        what = None
+        if not dump_ok:
+            if r2.exit_code == 0 or read_raw(A) != a_bytes or read_raw(A + ".bak") is not None:
+                what = "the serialiser rejects B's document but `deep patch` did not fail cleanly (A restored, no backup)"
+        elif r2.exit_code != 0:
+            what = "fault-free `deep patch a.%s` failed: %s" % (ftype, r2.output[-200:])
+        else:
+            try:
+                after = load_path_content(A)
+            except Exception as e:
+                after = e
+            if not _doc_same(after, expected):
+                what = "after patch A does not load as (load . save) of B's document"
+            elif hyp and not _doc_same(after, b_loaded):
+                what = "the codec round-trips B's document but A does not load equal to B after patch"
+            elif read_raw(A + ".bak") != a_bytes:
+                what = "--backup: A.bak does not hold the previous bytes"
+        if what and dump_ok:
+            # the theorem's premise C01 (delta application reproduces t2), observed on this pair through the API:
+            # where it fails (tuple keys, sets inside tuples ...: findings of C01 / C09, not of this block) the
+            # conclusion is not demanded
+            try:
+                from deepdiff import DeepDiff, Delta
+                c01 = _doc_same(Delta(DeepDiff(copy.deepcopy(a_loaded), copy.deepcopy(b_loaded))) + copy.deepcopy(a_loaded), b_loaded)
+            except Exception:
+                c01 = False
+            if not c01:
+                count("roundtrip_fmt:%s:premise_C01_fails(conclusion_not_demanded)" % ftype)
+                what = None
+        if what:
+            res["fails"].append((dict(tag, clause="reproduces_fmt", output=(r2.output or "")[-200:]), what))
+        shutil.rmtree(d, ignore_errors=True)
+    shutil.rmtree(work, ignore_errors=True)
+    return res
+
+
+# ---- histories: several `deep patch` commands on the same file (JSON documents; inside the property) ----
+
+SAFE_KEYS = ["a", "b", "c", "k1", "key 2", "x.y", "id", "n"]
+
+
+def gen_safe_doc(rng, depth=2):
+    r = rng.random()
+    if depth <= 0 or r < 0.3:
+        return rng.choice([0, 1, 2, 7, -3, 1.5, "x", "abc", None, True, "line1\nline2"])
+    if r < 0.7:
+        return {rng.choice(SAFE_KEYS): gen_safe_doc(rng, depth - 1) for _ in range(rng.randint(1, 3))}
+    return [gen_safe_doc(rng, depth - 1) for _ in range(rng.randint(0, 4))]
+
+
+def _loads_or_none(text):
+    from deepdiff.serialization import json_loads
+    if text is None:
+        return None, False
+    try:
+        return json_loads(text), True
+    except Exception:
+        return None, False
+
+
+def history_task(args):
+    """3-5 `deep patch` commands in a row on one a.json, each with its own B, flags and fault plan; the delta of
+    each command is made by the real `deep diff` from the CURRENT content of A (a stale one when A does not load).
+    After every command: (A, A.bak, exit status) against run_hist (show_history), and - independently of the
+    model - the statement's clauses for that command plus the invariant of C20_history_good_version_survives."""
+    idx, seed, scratch = args
+    sys.path.insert(0, core.REPO)
+    _quiet()
+    from click.testing import CliRunner
+    from deepdiff.commands import diff, patch
+    rng = random.Random(seed)
+    work = tempfile.mkdtemp(prefix="h%d_" % idx, dir=scratch)
+    res = {"cases": [], "fails": [], "counts": {}, "seen": [], "samples": [], "breaks": []}
+
+    def count(k):
+        res["counts"][k] = res["counts"].get(k, 0) + 1
+
+    d = tempfile.mkdtemp(dir=work)
+    A, B = os.path.join(d, "a.json"), os.path.join(d, "b.json")
+    doc0 = gen_safe_doc(rng, 3)
+    while not isinstance(doc0, (dict, list)):
+        doc0 = gen_safe_doc(rng, 3)
+    a_text0 = a_text_of(doc0, rng)
+    with open(A, "w", encoding="utf-8", newline="") as f:
+        f.write(a_text0)
+    prebak = rng.random() < 0.15
+    if prebak:
+        with open(A + ".bak", "w") as f:
+            f.write("BAK0")
+    # document ids of the toy universe: 1 = the initial document; fresh ids for every new document
+    doc_ids = [(doc0, 1)]
+    table = {a_text0: [1], "BAK0": [-9], "GARB": [-3]}
+    coder = Coder(table)
+
+    def doc_id(doc):
+        for (x, i) in doc_ids:
+            if json.dumps(x, sort_keys=True) == json.dumps(doc, sort_keys=True) and _doc_same(x, doc):
+                return i
+        doc_ids.append((doc, len(doc_ids) + 1))
+        return len(doc_ids)
+
+    def code_text(text):
+        """a text is [] when empty, [k; k] / [k] when it loads as document k (canonical text of a patched file /
+        anything else that happens to load), else an unloadable debris code"""
+        if text is None:
+            return None
+        if text == "":
+            return []
+        if text in coder.table:
+            return coder.table[text]
+        doc, ok = _loads_or_none(text)
+        if ok:
+            coder.table[text] = [doc_id(doc)]
+            return coder.table[text]
+        return coder(text)
+
+    hcmds, expected = [], []
+    cur_text = a_text0                    # the last complete version (for the invariant)
+    stale = None
+    guard_ok = True
+    n_cmds = rng.randint(3, 5)
+    for ci in range(n_cmds):
+        a_now = read_text(A)
+        bak_now = read_text(A + ".bak")
+        if a_now is None:                 # click itself refuses a missing path (exit status 2): the history ends
+            count("history:stopped_target_missing")
+            break
+        a_doc, a_loads = _loads_or_none(a_now)
+        keep, debug = rng.random() < 0.5, rng.random() < 0.3
+        r = rng.random()
+        if r < 0.35:
+            plan = {}
+        elif r < 0.8:
+            s, v = rng.choice(POINTS)
+            plan = {s: (rng.choice(["exc", "exc", "base"]), v)}
+        else:
+            plan = {}
+            for (s, v) in rng.sample(POINTS, 2):
+                plan.setdefault(s, (rng.choice(["exc", "base"]), v))
+        P = os.path.join(d, "d%d.pickle" % ci)
+        new_text, frm, rs = None, 0, 0
+        if a_loads:
+            b_doc = edit_once(rng, a_doc, False)[0] if rng.random() < 0.85 else gen_safe_doc(rng, 2)
+            if any(("'" in k and '"' in k) or ESC in k for k in keys_of(b_doc)) or any("old_type" in x and "new_type" in x for x in dicts_of(b_doc)):
+                b_doc = {"n": ci}
+            with open(B, "w", encoding="utf-8") as f:
+                f.write(json_src(b_doc, indent=2) + "\n")
+            rd = CliRunner().invoke(diff, [A, B, "--create-patch"])
+            if rd.exit_code != 0:
+                res["fails"].append(({"history": True, "clause": "diff", "a_text": a_now, "b_text": read_text(B)}, "`deep diff` failed inside a history: %s" % rd.output[-200:]))
+                break
+            delta_bytes = rd.stdout_bytes
+            stale = delta_bytes
+            # the reference result of this command: a fault-free run on a copy of the directory
+            dref = tempfile.mkdtemp(dir=work)
+            Ar, Pr = os.path.join(dref, "a.json"), os.path.join(dref, "p.pickle")
+            with open(Ar, "w", encoding="utf-8", newline="") as f:
+                f.write(a_now)
+            with open(Pr, "wb") as f:
+                f.write(delta_bytes)
+            rr = CliRunner().invoke(patch, [Ar, Pr])
+            new_text = read_text(Ar) if rr.exit_code == 0 else None
+            shutil.rmtree(dref, ignore_errors=True)
+            if new_text is None:
+                res["fails"].append(({"history": True, "clause": "reproduces", "a_text": a_now, "b_text": read_text(B), "faults": {}},
+                                     "fault-free `deep patch` failed inside a history"))
+                break
+            new_doc, _ = _loads_or_none(new_text)
+            frm, rs = doc_id(a_doc), doc_id(new_doc)
+            coder.table.setdefault(new_text, [rs, rs])
+        else:
+            if stale is None:
+                break
+            delta_bytes = stale
+            frm, rs = 1, 1
+        with open(P, "wb") as f:
+            f.write(delta_bytes)
+        inj = Injector(A, P, plan, reader=read_text)
+        escaped = None
+        with inj:
+            try:
+                r2 = CliRunner().invoke(patch, [A, P] + (["--backup"] if keep else []) + (["--debug"] if debug else []))
+            except BaseException as e:
+                r2, escaped = None, e
+        if r2 is None:
+            cli = ["exc", inj.tags.get(id(escaped), (None, "untagged:" + type(escaped).__name__))[1]]
+        else:
+            e = r2.exception
+            cli = ["exit", r2.exit_code] if (e is None or isinstance(e, SystemExit)) else ["exc", inj.tags.get(id(e), (None, "untagged:" + type(e).__name__))[1]]
+        a_after, bak_after = read_text(A), read_text(A + ".bak")
+        rep = _report(inj, None)
+        # ---- model input for this command --------------------------------------------------------
+        fired = {s: t for s, t in inj.fired.items()}
+        sched = coq_sched(plan, fired, code_text, inj.nat)
+        at_close = "close" in rep["disk_before"]
+        pend = code_text(rep["disk_before"].get("close")) if at_close else None
+        ev = "(ev_of true %s None %s %s false)" % (coq_opt_content(pend), coq_opt_content(pend),
+                                                   coq_optopt(rep["closed"], code_text(rep["closed_disk"]) if rep["closed"] else None))
+        hcmds.append("mkH %s %s %s %s %s %s" % (core.coq_bool(keep), core.coq_bool(debug), core.coq_Z(frm), core.coq_Z(rs), ev, sched))
+        expected.append([sx_file(code_text(a_after)), sx_file(code_text(bak_after)), [cli[0], cli[1]]])
+        count("history:cmd:%s" % ("fault_free" if not inj.fired else "faults_fired_%d" % len(inj.fired)))
+        count("history:cli:%s" % ":".join(str(x) for x in cli))
+        # ---- direct oracle (no reference to the model) --------------------------------------------
+        case = {"history": True, "hist_index": idx, "hist_seed": seed, "command": ci, "a_text": a_now, "b_text": read_text(B), "keep": keep, "debug": debug,
+                "faults": {s: list(kv) for s, kv in plan.items()}, "bak_before": bak_now}
+        nfired = len(inj.fired)
+        what = None
+        if a_loads and nfired == 0:
+            if cli != ["exit", 0] or a_after != new_text:
+                what = "history: a fault-free `deep patch` did not produce the patched content"
+            elif keep and bak_after != a_now:
+                what = "history: --backup did not keep the previous content in A.bak"
+            elif not keep and bak_after is not None:
+                what = "history: a stray A.bak remains after a successful `deep patch` without --backup"
+        elif a_loads and len(plan) == 1 and nfired == 1 and list(plan.values())[0][0] == "exc" and \
+                (list(plan)[0] in SAVE_STEPS_UP_TO_CLOSE or list(plan)[0] in PRE_STEPS):
+            if a_after != a_now:
+                what = "history: a single failure at '%s' left A without its previous content" % list(plan)[0]
+            elif bak_after is not None and bak_after != bak_now:
+                what = "history: a single failure at '%s' left a stray A.bak" % list(plan)[0]
+            elif cli == ["exit", 0]:
+                what = "history: a single failure was swallowed (exit status 0)"
+        if what is None and cli == ["exit", 0] and a_loads and a_after != new_text:
+            what = "history: `deep patch` exited 0 although A does not hold the patched content"
+        # the invariant of C20_history_good_version_survives, under its guard (the debris does not load)
+        for t in list(inj.fired.values()) + [rep["closed_disk"] if rep["closed"] else None]:
+            if t not in (None, "", new_text, a_now) and _loads_or_none(t)[1]:
+                guard_ok = False
+        if a_after == new_text and new_text is not None:
+            cur_text = new_text
+        if what is None and guard_ok:
+            inv = a_after == cur_text or (bak_after == cur_text and not _loads_or_none(a_after)[1])
+            count("history:invariant_checked")
+            if not inv:
+                what = "history: the last complete version is neither in A nor (with an unloadable A) in A.bak"
+        if what is None and (read_text(B) is None or [x for x in os.listdir(d) if x not in ("a.json", "a.json.bak", "b.json") and not x.endswith(".pickle")]):
+            what = "history: another file was touched"
+        if what:
+            res["fails"].append((dict(case, clause="history", observed={"A": a_after, "bak": bak_after, "cli": cli}), what))
+        res["seen"].append((("history", idx, ci, a_now, keep, debug, tuple(sorted(plan.items()))), True))
+    if hcmds:
+        expr = "show_history %s %s [%s]" % (coq_opt_content([1]), coq_opt_content([-9] if prebak else None), "; ".join(hcmds))
+        res["cases"].append((expr, expected, {"stream": "history", "index": idx, "seed": seed, "commands": len(hcmds)}))
+        count("history:length_%d" % len(hcmds))
+    if not guard_ok:
+        count("history:debris_loads(guard_fails)")
+    shutil.rmtree(work, ignore_errors=True)
+    return res
+
+
+# --------------------------------------------------------------------------
 # known findings
 # --------------------------------------------------------------------------
 
@@ -1199,10 +2222,12 @@ def alias_witness(ctx):
                                       "observed": o and {"A": o["A"], "cli": o["cli"]}})
 
 
-def collect(ctx, results, name):
+def collect(ctx, results, name, header=None):
     uniq = {}
     total = 0
     for r in results:
+        for b in r.get("breaks", []):
+            ctx.break_("correspondence", b)
         for (expr, exp, case) in r["cases"]:
             total += 1
             key = (expr, json.dumps(exp))
@@ -1217,7 +2242,7 @@ def collect(ctx, results, name):
         for s in r["samples"]:
             ctx.sample(s)
     cases = list(uniq.values())
-    bad = ctx.coq_cases(name, HEADER, cases, shard=300, label=name + "(distinct model inputs)")
+    bad = ctx.coq_cases(name, header or HEADER, cases, shard=300, label=name + "(distinct model inputs)")
     # every implementation run is validated against the model (identical model inputs are evaluated once)
     ctx.corr_cases += total - len(cases)
     ctx.count("impl_runs:" + name, total)
@@ -1225,6 +2250,12 @@ def collect(ctx, results, name):
 
 
 def run(ctx):
+    import time as _time
+    _t0, _phases = _time.time(), {}
+
+    def _phase(name):
+        _phases[name] = round(_time.time() - _t0, 1)
+        ctx.note("phase_done_at_s", dict(_phases))
     rng = ctx.rng
     n_pairs = 500 if ctx.thorough else 120
     n_all = 24 if ctx.thorough else 2
@@ -1242,24 +2273,63 @@ def run(ctx):
     for j in range(n_ref):
         a, b, kinds = gen_number_pair(rng) if j % 12 == 5 else (gen_list_pair(rng) if j % 3 else gen_pair(rng))
         tasks.append((len(pairs) + j, a, b, a_text_of(a, rng), kinds, "ref", rng.randrange(1 << 30), ctx.scratch))
+    # round 3: histories of several commands (JSON documents: inside the property) ...
+    htasks = [(i, rng.randrange(1 << 30), ctx.scratch) for i in range(400 if ctx.thorough else 60)]
+    # ... and, as extension streams (outside the statement: recorded, never a violation): process crashes at every
+    # point of the save path, every branch of _save_content / load_path_content, the real codecs
+    ctasks = []
+    for ftype, kinds in ((("json", ("ok", "bad")), ("csv", ("ok", "bad", "late")), ("pickle", ("ok", "bad", "late")),
+                          ("toml", ("ok",))) + ((("xyz", ("ok",)), ("tsv", ("ok",))) if ctx.thorough else ())):
+        for kind in kinds:
+            for keep in (False, True):
+                ctasks.append((ftype, keep, kind, rng.randrange(1 << 30), ctx.thorough, ctx.scratch))
+    ftasks = [(ft, rng.randrange(1 << 30), ctx.thorough, ctx.scratch) for ft in ("csv", "tsv", "pickle", "toml", "yaml", "yml", "xyz", "json")]
+    n_rt = 300 if ctx.thorough else 40
+    rtasks = [(ft, n_rt, rng.randrange(1 << 30), ctx.scratch) for ft in ("csv", "pickle") for _ in range(2)]
     # the long tasks first
     with mp.get_context("fork").Pool(core.NCPU) as pool:
         r_direct = pool.apply_async(direct_task, ((rng.randrange(1 << 30), "all" if ctx.thorough else "single", ctx.scratch),))
+        r_crash = pool.map_async(crash_task, ctasks, chunksize=1)
         ltasks = [(i,) + gen_locale_pair(rng) + (bool(i % 2), ctx.scratch) for i in range(80 if ctx.thorough else 16)]
         r_locale = pool.map_async(locale_task, ltasks, chunksize=1)
+        r_fmt = pool.map_async(cli_fmt_task, ftasks, chunksize=1)
+        r_rt = pool.map_async(roundtrip_fmt_task, rtasks, chunksize=1)
+        r_hist = pool.map_async(history_task, htasks, chunksize=2)
         results = pool.map(pair_task, tasks, chunksize=1)
         rd = r_direct.get()
         results_locale = r_locale.get()
+        results_hist = r_hist.get()
+        _phase("pair_tasks")
+        results_crash, results_fmt, results_rt = r_crash.get(), r_fmt.get(), r_rt.get()
+    _phase("pool")
     collect(ctx, results, "c20_cli")
+    _phase("coq_cli")
+    collect(ctx, results_hist, "c20_history", GEN_HEADER)
+    ctx.note("histories", {"n": len(htasks), "commands_per_history": "3-5", "fault_plans": "none / one / two fault points per command, Exception and KeyboardInterrupt kinds"})
+    _phase("coq_history")
+    with ctx.extension("Crash"):
+        collect(ctx, results_crash, "c20_crash", GEN_HEADER)
+    _phase("coq_crash")
+    with ctx.extension("Formats"):
+        collect(ctx, results_fmt + results_rt, "c20_formats", GEN_HEADER)
+        ctx.coq_cases("c20_dispatch", GEN_HEADER, dispatch_cases(ctx), label="file-type dispatch (ext_of / fmt_of_ext) on path names")
+        sys.path.insert(0, core.REPO)
+        _quiet()
+        for wit in FORMAT_WITNESSES:
+            fmt_witness(ctx, *wit)
+        ctx.count("optional_modules:" + ",".join("%s=%s/%s" % (k, fmt_mods()["load"][k], fmt_mods()["save"][k]) for k in sorted(fmt_mods()["load"])))
+    _phase("formats")
     gcases = [g for r in results for g in r.get("guard_cases", [])]
     ctx.coq_cases("c20_json_guards", GUARD_HEADER, gcases, shard=150, label="json_guardsb on the generated documents")
     pcases = [g for r in results for g in r.get("payload_cases", [])]
     from harness import deltacommon as DC
     ctx.coq_cases("c20_payload_guards", DC.HDR + "\nFrom DD Require Import Delta.DeltaChain Pickle.Codec Pickle.DeltaCodec Diff.DiffPaths Cli.JsonDocs Cli.JsonPickle.",
                   pcases, shard=100, label="keys_path_okb / payload conditions / ops_sorted2 on the generated documents")
+    _phase("coq_guards")
     alias_witness(ctx)
     collect(ctx, [rd], "c20_save_direct")
     collect(ctx, results_locale, "c20_locale")
+    _phase("end")
     ctx.note("fault_points", ["%s/%s" % p for p in POINTS])
     ctx.note("document_pairs", {"with_fault_schedules": len(pairs), "round_trip_only": n_ref})
     # every open finding must still reproduce on the implementation (otherwise the finding list is stale)
@@ -1281,6 +2351,14 @@ def replay(ctx, data):
         what = oracle_direct(case["a_present"], case["bak_present"], case["serialisable"], case["keep"], o)
         if what:
             ctx.fail(dict(case, clause="restore", observed=o), what)
+        return
+    if case.get("history"):
+        r = history_task((case.get("hist_index", 0), case["hist_seed"], ctx.scratch))
+        ctx.evaluations += 1
+        print("replay (history of `deep patch` commands, seed %d): %d failing command(s)" % (case["hist_seed"], len(r["fails"])))
+        for (c, what) in r["fails"]:
+            print("   command %r: %s\n      faults=%r observed=%r" % (c.get("command"), what, c.get("faults"), c.get("observed")))
+            ctx.fail(c, what)
         return
     if "a_text" not in case:
         return run(ctx)
